@@ -96,6 +96,7 @@ func refSrc(d *tape, format string) gen.Src {
 		s.DictCode = pickOf[byte](d, 0, 0, 1, 2, 5)
 	case "lzma":
 		s.SizeMode = d.pick(3)
+		s.MarkLen = pickOf(d, 0, 0, 3, 10, 18, 273)
 		s.DictFld = pickOf[uint32](d, 0, 1, 4095, 4096, 4097, 8192, 65536)
 		s.Props = [3]int{d.pick(9), d.pick(5), d.pick(5)}
 		if d.pick(16) == 0 {
